@@ -11,7 +11,9 @@ EXPLANATION = (
     "biomass_accumulation, harvest_index, HIref_current_day). C05.b: every division / logarithm whose argument is a pure "
     "function of crop parameters is evaluated over the 37 effective catalogue crops (defaults + catalogue + "
     "calculate_additional_params + calendar copies, constant-folded), honouring crop-pure guards; a zero divisor makes "
-    "crop outputs non-finite. NOT decided: canopy/root/harvest-index envelopes and monotonicity, degree-day range "
+    "crop outputs non-finite. C05.c (sibling agreement): the four implementations of the degree-day formula (scalar daily, "
+    "vectorised season reset, two pandas versions of the crop calendar) apply, for each method 1-3, exactly the temperature "
+    "clamps of the method's definition, which keep daily degree days in [0, Tupp - Tbase]. NOT decided: canopy/root/harvest-index envelopes and monotonicity, degree-day range "
     "(numeric trajectories).")
 
 ZERO_COLS = ["dap", "gdd_cum", "z_root", "canopy_cover", "canopy_cover_ns", "biomass", "biomass_ns",
@@ -42,5 +44,7 @@ def run(chk, prog, tier):
         chk.callsite(c)
     chk.valuation("growing_season=False")
     table_divisors(chk, prog, "C05.b")
+    from ._siblings import gdd_clamp_agreement
+    gdd_clamp_agreement(chk, prog, "C05.c")
     chk.assume("A-1")
     chk.exhaustive = True
